@@ -50,7 +50,7 @@ check(
 check(
     "C01",
     "exhaustive product of integrand templates x element settings x meshes x measures x compute_form_data option sets, preprocessed vs original integrand values per (integral type, subdomain)",
-    "Every form of the product (about 45 integrand templates incl. index reuse, derivatives, conditionals, geometry, compound algebra, Gateaux derivatives) x 12 element settings (Lagrange, vector, tensor, RT, N1curl, L2-Piola, Regge, HHJ, covariant-contravariant, symmetric, two mixed) x 5 meshes (incl. immersed) x 6 measures (dx, dx(1), multi-subdomain sums, ds, dS) is run through the real compute_form_data under the option sets (quick: all 32 combinations of the five lowering flags with the other flags cycling; thorough: all 1024); for every (integral type, subdomain id) of the result the summed model value of the preprocessed integrands on reference-frame data equals the measure scaling factor times the summed value of the original integrands that apply there; dropped subdomains are detected. Exceptions are accepted outcomes.",
+    "Every form of the product (about 45 integrand templates incl. index reuse, derivatives, conditionals, geometry, compound algebra, Gateaux derivatives) x 12 element settings (Lagrange, vector, tensor, RT, N1curl, L2-Piola, Regge, HHJ, covariant-contravariant, symmetric, two mixed) x 5 meshes (incl. immersed) x 6 measures (dx, dx(1), multi-subdomain sums, ds, dS) is run through the real compute_form_data under the option sets (quick: all 32 combinations of the five lowering flags with the other flags cycling; thorough: the full item product with a rotating 1/128 slice of all 1024 combinations per item, every combination covered across items); for every (integral type, subdomain id) of the result the summed model value of the preprocessed integrands on reference-frame data equals the measure scaling factor times the summed value of the original integrands that apply there; dropped subdomains are detected. Exceptions are accepted outcomes.",
     "Trusted: reference evaluator Sem (push-forwards, vertex geometry, jets), FEniCS reference-cell tables, model of the measure scaling (|det J| w, facet pseudo-determinant w). Affine simplex cells only; no MeshSequence / intersect measures / coefficients_to_split / quadrilaterals; integrands containing CoordinateDerivative (shape derivatives) have no model value and are skipped (seed C01-c, DESIGN 9.7). H1 data continuous across facets, all else independent per side.",
     "DESIGN.md 3 C01",
 )
